@@ -641,7 +641,7 @@ func genL(n *node) []Move {
 }
 
 func run(c *hl.Ctx) {
-	c.Rule("E2: depth-first enumeration of every trace of <= N chunks of the specification chunker (all legal header choices), family by family: T = header type {0,1,2,3} x timestamp/delta class (8 values around 0, 0xFFFFFF, 2^31, 2^32-1) on one chunk stream (cs 3 and cs 2); H = header-field inheritance (type, length, stream id) with fmt 1/2/3 where legal; B = chunk stream ids {2,3,35,63,64,65,67,319,320,321,65599} (pairs that alias under a dropped id bit or a dropped header byte) x every basic-header form; I = chunk-level interleaving of 2 chunk streams + Set Chunk Size {2,128,4096} on cs 2; L = length classes {1,c-1,c,c+1,2c,2c+1} x chunk sizes {1,2,127,128,129,4096,65536}; W = timestamp accumulation over 1..4 (thorough 1..5) message starts on one chunk stream (cs 7): type 0 with timestamps {0, 1, 0xFFFFFE, 0xFFFFFF, 2^31-2*0xFFFFFE, 2^31-300, 2^31-2, 2^31-1, 2^31} x type 1 and type 2 with plain deltas {0, 1, 0x80, 0x100, 0xFFFFFE} and extended deltas {0xFFFFFF, 0x1000000, 2^31-300} x type 3 message start (delta re-added, repeatable), all messages of a trace single-chunk (1 byte) or multi-chunk (129 bytes = 2 chunks; thorough also 300 bytes = 3 chunks) with the type-3 continuation chunks in between, so that 0xFFFFFF and 2^31 are crossed by every header type after an extended and after a plain previous header (quick: <=4 starts, single-chunk - also with 1-byte reads - and 2-chunk; thorough: <=5 starts single-chunk with 1-byte reads, <=5 starts 2-chunk, <=4 starts 3-chunk); Z = zero-length messages and header compression: on 1..3 subject chunk streams (cs 5, cs 2, cs 70 in 2-byte form) every message start takes its length from {0, 1, c, c+1, 2c} (c = chunk size in force: 128, thorough also 2 after a Set Chunk Size prefix) at every position including the first message of the chunk stream, with every header type legal there (type 0 always; type 1 with any length once the chunk stream has carried a chunk; type 2 and 3 when the length repeats - after an empty message a type-2/3 start is again an empty message), the subjects' chunks interleaved with each other and with the three chunks of one 2c+1-byte message of a background chunk stream (cs 11; thorough also cs 12) (quick: 1 subject <=4 chunks with 1-byte reads and illegal continuations for each of the 3 subjects, each subject alone <=5 chunks, 2 subjects (cs 5 + cs 70, cs 5 + cs 2) <=4 chunks, 3 subjects <=3 chunks; thorough: 1 subject <=5 chunks with 1-byte reads and illegal continuations, 1 subject + 2 background streams <=6 chunks, 2 subjects <=5 chunks, 3 subjects <=4 chunks, chunk size 2 with 1 subject <=5 and 2 subjects <=4 chunks); a deviating Z trace is keyed decode/<what the first chunk the reader deviates at is: fmtN-start-after-only-empty-messages, fmtN-start-after-empty-message, empty-message-fmtN, else plain>. Every trace prefix is fed to a fresh real Protocol (whole and 1-byte reads) and its ReadMessage sequence compared with the chunker's bookkeeping (timestamps after reduction to 31 bits; a returned timestamp >= 2^31 is reported under timestamp-31bit/<header type of that message's first chunk>; a trace that uses an extended delta or a type-3 message start after an extended header and deviates is compared with the reference de-chunker in its documented extended-field-is-absolute reading: equal = the known finding decode/<features>, different = decode-other/<features>); at every node each illegal continuation (fmt 0 / changed length inside an unfinished message, fresh chunk stream with fmt 1/2/3, and the librtmp cs-2 fmt-1 form which must be accepted) is appended. state = abstract chunker state; transition = one chunk. " + ruleM)
+	c.Rule("E2: depth-first enumeration of every trace of <= N chunks of the specification chunker (all legal header choices), family by family: T = header type {0,1,2,3} x timestamp/delta class (8 values around 0, 0xFFFFFF, 2^31, 2^32-1) on one chunk stream (cs 3 and cs 2); H = header-field inheritance (type, length, stream id) with fmt 1/2/3 where legal; B = chunk stream ids {2,3,35,63,64,65,67,319,320,321,65599} (pairs that alias under a dropped id bit or a dropped header byte) x every basic-header form; I = chunk-level interleaving of 2 chunk streams + Set Chunk Size {2,128,4096} on cs 2; L = length classes {1,c-1,c,c+1,2c,2c+1} x chunk sizes {1,2,127,128,129,4096,65536}; W = timestamp accumulation over 1..4 (thorough 1..5) message starts on one chunk stream (cs 7): type 0 with timestamps {0, 1, 0xFFFFFE, 0xFFFFFF, 2^31-2*0xFFFFFE, 2^31-300, 2^31-2, 2^31-1, 2^31} x type 1 and type 2 with plain deltas {0, 1, 0x80, 0x100, 0xFFFFFE} and extended deltas {0xFFFFFF, 0x1000000, 2^31-300} x type 3 message start (delta re-added, repeatable), all messages of a trace single-chunk (1 byte) or multi-chunk (129 bytes = 2 chunks; thorough also 300 bytes = 3 chunks) with the type-3 continuation chunks in between, so that 0xFFFFFF and 2^31 are crossed by every header type after an extended and after a plain previous header (quick: <=4 starts, single-chunk - also with 1-byte reads - and 2-chunk; thorough: <=5 starts single-chunk with 1-byte reads, <=5 starts 2-chunk, <=4 starts 3-chunk); Z = zero-length messages and header compression: on 1..3 subject chunk streams (cs 5, cs 2, cs 70 in 2-byte form) every message start takes its length from {0, 1, c, c+1, 2c} (c = chunk size in force: 128, thorough also 2 after a Set Chunk Size prefix) at every position including the first message of the chunk stream, with every header type legal there (type 0 always; type 1 with any length once the chunk stream has carried a chunk; type 2 and 3 when the length repeats - after an empty message a type-2/3 start is again an empty message), the subjects' chunks interleaved with each other and with the three chunks of one 2c+1-byte message of a background chunk stream (cs 11; thorough also cs 12) (quick: 1 subject <=4 chunks with 1-byte reads and illegal continuations for each of the 3 subjects, each subject alone <=5 chunks, 2 subjects (cs 5 + cs 70, cs 5 + cs 2) <=4 chunks, 3 subjects <=3 chunks; thorough: 1 subject <=5 chunks with 1-byte reads and illegal continuations, 1 subject + 2 background streams <=6 chunks, 2 subjects <=5 chunks, 3 subjects <=4 chunks, chunk size 2 with 1 subject <=5 and 2 subjects <=4 chunks); a deviating Z trace is keyed decode/<what the first chunk the reader deviates at is: fmtN-start-after-only-empty-messages, fmtN-start-after-empty-message, empty-message-fmtN, else plain>. Every trace prefix is fed to a fresh real Protocol (whole and 1-byte reads) and its ReadMessage sequence compared with the chunker's bookkeeping (timestamps after reduction to 31 bits; a returned timestamp >= 2^31 is reported under timestamp-31bit/<header type of that message's first chunk>; a trace that uses an extended delta or a type-3 message start after an extended header and deviates is compared with the reference de-chunker in its documented extended-field-is-absolute reading: equal = the known finding decode/<features>, different = decode-other/<features>); at every node each illegal continuation (fmt 0 / changed length inside an unfinished message, fresh chunk stream with fmt 1/2/3, and the librtmp cs-2 fmt-1 form which must be accepted) is appended. state = abstract chunker state; transition = one chunk. " + ruleM + " " + ruleD)
 	c.Assume("timestamps compared after reduction to 31 bits", "type-1/2 headers inside an unfinished message and Abort messages are not generated", "the extended-timestamp field of a type-3 chunk repeats the value of the last type 0/1/2 header of its chunk stream", "a timestamp delta that carries the 32-bit timestamp past 2^31 or 2^32 is a legal forward step (RTMP timestamps roll over); only the 31-bit reduction of the result is compared")
 	h := &harness{c: c}
 	dT, dH, dB, dI, dL := 3, 3, 3, 5, 4
@@ -662,6 +662,9 @@ func run(c *hl.Ctx) {
 	before = c.Count("evaluations")
 	h.runM()
 	c.Add("evaluations_family_M", c.Count("evaluations")-before)
+	before = c.Count("evaluations")
+	h.runD()
+	c.Add("evaluations_family_D", c.Count("evaluations")-before)
 	if c.Shard == 0 {
 		n := newNode().apply(Move{K: "start", CS: 3, Form: 1, Fmt: 0, Field: 26, Len: 1, Type: 8, Sid: 1}).apply(Move{K: "start", CS: 3, Form: 1, Fmt: 3, Len: 1, Type: 8, Sid: 1})
 		c.Sample(map[string]interface{}{"family": "T", "moves": fmt.Sprint(n.moves), "wire": hl.Hex(n.wire), "expected_timestamps": []uint32{n.expect[0].Timestamp, n.expect[1].Timestamp}})
@@ -675,11 +678,16 @@ func replay(c *hl.Ctx, raw json.RawMessage) {
 		Neg     bool   `json:"neg"`
 		Many    *mCase `json:"many"`
 		Bad     *Move  `json:"bad"`
+		LW      *lwCase `json:"lw"`
 	}
 	if err := json.Unmarshal(raw, &cs); err != nil {
 		panic(err)
 	}
 	h := &harness{c: c}
+	if cs.LW != nil {
+		h.replayLW(*cs.LW, cs.OneByte)
+		return
+	}
 	if cs.Many != nil {
 		n := buildMany(*cs.Many)
 		if cs.Neg {
